@@ -267,6 +267,89 @@ Proof.
   intros K H. unfold shorten. rewrite (shorten_loop_cycle _ _ k K H). reflexivity.
 Qed.
 
+(* ------------------------------------------------------------------ a chain that leaves at all leaves within |a| look-ups *)
+Lemma dup_or_nodup (f : nat -> string) m :
+  NoDup (map f (seq 0 m)) \/ exists i j, i < j /\ j < m /\ f i = f j.
+Proof.
+  induction m as [|m IH]; [left; constructor|].
+  destruct IH as [ND|[i [j [Hij [Hj E]]]]]; [|right; exists i, j; repeat split; [exact Hij|lia|exact E]].
+  rewrite seq_S, map_app. simpl.
+  destruct (in_dec string_dec (f m) (map f (seq 0 m))) as [Hin|Hout].
+  - right. apply in_map_iff in Hin as [i [E Hi]]. apply in_seq in Hi. exists i, m. repeat split; [lia|lia|exact E].
+  - left. apply nodup_snoc; assumption.
+Qed.
+
+Lemma follow_in_prefix a k m :
+  In (follow m a k) (akeys a) -> forall t, t <= m -> In (follow t a k) (akeys a).
+Proof.
+  intros H t L. destruct (in_dec string_dec (follow t a k) (akeys a)) as [Hin|Hout]; [exact Hin|].
+  exfalso. rewrite (follow_stable t m a k Hout L) in H. exact (Hout H).
+Qed.
+
+Lemma follow_periodic a k i j :
+  i < j -> follow i a k = follow j a k ->
+  (forall t, t <= j -> In (follow t a k) (akeys a)) ->
+  forall n, In (follow n a k) (akeys a).
+Proof.
+  intros Hij E Hpre n. induction n as [n IH] using lt_wf_ind.
+  destruct (Nat.le_gt_cases n j) as [L|G]; [apply Hpre; exact L|].
+  replace n with (j + (n - j)) by lia. rewrite follow_add, <- E, <- follow_add. apply IH. lia.
+Qed.
+
+Theorem follow_escape_bound a k :
+  In (follow (length a) a k) (akeys a) -> forall n, In (follow n a k) (akeys a).
+Proof.
+  intros H.
+  pose proof (follow_in_prefix a k (length a) H) as Hpre.
+  destruct (dup_or_nodup (fun t => follow t a k) (S (length a))) as [ND|[i [j [Hij [Hj E]]]]].
+  - exfalso.
+    assert (I : incl (map (fun t => follow t a k) (seq 0 (S (length a)))) (akeys a)).
+    { intros x Hx. apply in_map_iff in Hx as [t [<- Ht]]. apply in_seq in Ht. apply Hpre. lia. }
+    pose proof (NoDup_incl_length ND I) as L. rewrite map_length, seq_length in L. unfold akeys in L. rewrite map_length in L. lia.
+  - apply (follow_periodic a k i j Hij E). intros t Ht. apply Hpre. lia.
+Qed.
+
+(* the two hypotheses of shorten_acyclic / shorten_cyclic are complementary, and decidable *)
+Lemma chains_decidable a :
+  (forall k, In k (akeys a) -> ~ In (follow (length a) a k) (akeys a)) \/
+  (exists k, In k (akeys a) /\ forall n, In (follow n a k) (akeys a)).
+Proof.
+  assert (D : forall ks, (forall k, In k ks -> ~ In (follow (length a) a k) (akeys a)) \/
+                         (exists k, In k ks /\ In (follow (length a) a k) (akeys a))).
+  { induction ks as [|k ks IH]; [left; intros k []|].
+    destruct (in_dec string_dec (follow (length a) a k) (akeys a)) as [Hin|Hout].
+    - right. exists k. split; [left; reflexivity|exact Hin].
+    - destruct IH as [IH|[k' [I1 I2]]].
+      + left. intros k0 [<-|H0]; [exact Hout|apply IH; exact H0].
+      + right. exists k'. split; [right; exact I1|exact I2]. }
+  destruct (D (akeys a)) as [H|[k [K H]]]; [left; exact H|right].
+  exists k. split; [exact K|apply follow_escape_bound; exact H].
+Qed.
+
+(* the constructor's verdict, completely: InitialisationError exactly for the declarations in which some alias chain never
+   reaches a name that is no alias *)
+Theorem shorten_raises_iff ALIASES :
+  NoDup (akeys ALIASES) ->
+  (shorten ALIASES = Raise InitialisationError <->
+   exists k, In k (akeys (drop_self ALIASES)) /\ forall n, In (follow n (drop_self ALIASES) k) (akeys (drop_self ALIASES))).
+Proof.
+  intros ND. split.
+  - intros R. destruct (chains_decidable (drop_self ALIASES)) as [H|H]; [|exact H].
+    destruct (shorten_acyclic ALIASES ND H) as [a [S _]]. rewrite S in R. discriminate.
+  - intros [k [K H]]. eapply shorten_cyclic; eassumption.
+Qed.
+
+(* acyclicity stated without a bound: every chain reaches, sooner or later, a name that is no alias *)
+Theorem shorten_acyclic_unbounded ALIASES :
+  NoDup (akeys ALIASES) ->
+  (forall k, In k (akeys (drop_self ALIASES)) -> exists n, ~ In (follow n (drop_self ALIASES) k) (akeys (drop_self ALIASES))) ->
+  exists a, shorten ALIASES = Ret a /\ akeys a = akeys (drop_self ALIASES) /\ chained a = false /\
+            (forall x, aget a x = follow (length ALIASES) ALIASES x).
+Proof.
+  intros ND H. apply shorten_acyclic; [exact ND|].
+  intros k K C. destruct (H k K) as [n Hn]. apply Hn. apply follow_escape_bound. exact C.
+Qed.
+
 (* whatever the declaration: a map that the constructor stores is unchained and has no self-map *)
 Lemma shorten_loop_some passes : forall a a', shorten_loop passes a = Some a' -> chained a' = false /\ akeys a' = akeys a.
 Proof.
@@ -929,3 +1012,179 @@ Section Export.
     eexists. split; [reflexivity|]. rewrite combine_length, map_length, <- (forall2_length _ _ _ F). apply Nat.min_id.
   Qed.
 End Export.
+
+Lemma replacements_assoc am ts : forall rep c,
+  replacements am ts = Ret rep -> NoDup ts ->
+  (In c ts -> exists ch, group_choice am c = Ret ch /\ assoc c rep = ch) /\ (~ In c ts -> assoc c rep = None).
+Proof.
+  induction ts as [|t ts IH]; intros rep c H ND; simpl in H.
+  - inversion H; subst. split; [intros []|reflexivity].
+  - destruct (group_choice am t) as [ch0|e] eqn:G; [|discriminate].
+    destruct (replacements am ts) as [l|e] eqn:R; [|discriminate]. inversion H; subst. clear H.
+    inversion ND as [|? ? Ht ND']; subst.
+    destruct (IH l c eq_refl ND') as [I1 I2].
+    destruct (string_dec c t) as [->|Ne].
+    + split; [|intros C; exfalso; apply C; left; reflexivity].
+      intros _. exists ch0. split; [exact G|].
+      destruct ch0 as [x|]; simpl; [rewrite String.eqb_refl; reflexivity|].
+      destruct (IH l t eq_refl ND') as [_ I2']. apply I2'. exact Ht.
+    + assert (E : assoc c (match ch0 with Some x => (t, x) :: l | None => l end) = assoc c l).
+      { destruct ch0 as [x|]; [|reflexivity]. simpl. apply String.eqb_neq in Ne. rewrite Ne. reflexivity. }
+      rewrite E. split.
+      * intros [C|C]; [congruence|apply I1; exact C].
+      * intros C. apply I2. intros C'. apply C. right. exact C'.
+Qed.
+
+(* CHOOSING THE PREFERRED NAME: a column whose variable has a declared preferred name (the variable's own name or any of its
+   aliases) is titled with exactly that name *)
+Theorem preferred_title am :
+  WFam am -> NoDup (akeys (amap am)) ->
+  forall cols titles c p,
+  rename_columns am cols = Ret titles ->
+  In p (apref am) -> aget (amap am) p = c -> ~ In c (akeys (amap am)) ->
+  Forall2 (fun c' t => c' = c -> t = p) cols titles.
+Proof.
+  intros W NDK cols titles c p R Hp Hpc Hc.
+  assert (PK : p = c \/ In (p, c) (amap am)).
+  { unfold aget in Hpc. destruct (assoc p (amap am)) as [v|] eqn:A; [|left; exact Hpc].
+    right. subst v. apply assoc_In. exact A. }
+  unfold rename_columns in R. destruct (apref am) as [|p0 pr] eqn:P; [contradiction|]. rewrite <- P in *.
+  destruct (replacements am (dedupe (avals (amap am)))) as [rep|e] eqn:RP; [|discriminate].
+  inversion R; subst titles. clear R.
+  assert (T : aget rep c = p).
+  { destruct (replacements_assoc am _ rep c RP (dedupe_NoDup _)) as [I1 I2].
+    destruct (in_dec string_dec c (avals (amap am))) as [Hv|Hv].
+    - destruct (I1 (proj2 (dedupe_In _ _) Hv)) as [ch [G A]]. unfold aget. rewrite A. clear I1 I2 A.
+      unfold group_choice in G.
+      assert (Hks : forall k, In k (group_of (amap am) c) -> In (k, c) (amap am)) by (intros k; apply group_of_In).
+      assert (Pin : In p (group_of (amap am) c ++ [c])).
+      { apply in_app_iff. destruct PK as [->|PK]; [right; left; reflexivity|left; apply group_of_In; exact PK]. }
+      assert (MULTI : forall ks, ks = group_of (amap am) c ->
+                match filter (fun x => mem x (apref am)) (dedupe (ks ++ [c])) with
+                | [] => Ret None | [x] => Ret (Some x) | _ :: _ :: _ => Raise ValueError end = Ret ch ->
+                match ch with Some x => x | None => c end = p).
+      { intros ks -> G'.
+        assert (Fin : In p (filter (fun x => mem x (apref am)) (dedupe (group_of (amap am) c ++ [c])))).
+        { apply filter_In. split; [apply dedupe_In; exact Pin|apply mem_In; exact Hp]. }
+        destruct (filter (fun x => mem x (apref am)) (dedupe (group_of (amap am) c ++ [c]))) as [|x [|y r]] eqn:F.
+        - contradiction.
+        - inversion G'; subst. destruct Fin as [E|[]]. exact E.
+        - discriminate. }
+      destruct (group_of (amap am) c) as [|k [|k2 r]] eqn:GO.
+      + apply (MULTI []); [reflexivity|exact G].
+      + destruct (mem c (apref am)) eqn:M; inversion G; subst ch.
+        * (* the variable's own name is preferred: p must be it *)
+          destruct PK as [E|PK]; [symmetry; exact E|]. exfalso.
+          apply mem_In in M.
+          assert (E : p = c).
+          { apply (nodup_map_inj (aget (amap am)) (apref am)); [exact (proj2 W)|exact Hp|exact M|].
+            rewrite Hpc. symmetry. apply aget_nonkey. exact Hc. }
+          subst p. apply Hc. apply in_map_iff. exists (c, c). split; [reflexivity|exact PK].
+        * destruct PK as [E|PK].
+          -- subst p. apply mem_In in Hp. congruence.
+          -- assert (In p [k]) by (rewrite <- GO; apply group_of_In; exact PK). destruct H as [E|[]]. exact E.
+      + apply (MULTI (k :: k2 :: r)); [reflexivity|exact G].
+    - unfold aget. rewrite I2; [|intros C; apply Hv; apply (proj1 (dedupe_In _ _)); exact C].
+      destruct PK as [E|PK]; [symmetry; exact E|]. exfalso. apply Hv. apply in_map_iff. exists (p, c). split; [reflexivity|exact PK]. }
+  clear RP. induction cols as [|c' cols IH]; simpl; constructor; [|exact IH].
+  intros ->. exact T.
+Qed.
+
+(* ================================================================== the canonical twin, defined from the DECLARATION alone *)
+(* chain_end ALIASES x: follow the declared chain of x as far as it goes (what a reader of the class body would do by hand; the
+   harness's oracle builds its twin with exactly this function) *)
+Definition chain_end (ALIASES : amap_t) (x : string) : string := follow (length ALIASES) ALIASES x.
+
+Definition canon_key (ALIASES : amap_t) (k : key) : key :=
+  match k with
+  | KName n => KName (chain_end ALIASES n)
+  | KLabel n l => KLabel (chain_end ALIASES n) l
+  | KSlice n a b st => KSlice (chain_end ALIASES n) a b st
+  | KTuple3 => KTuple3
+  | KOther => KOther
+  end.
+
+Definition canon_op (ALIASES : amap_t) (o : op) : op :=
+  match o with
+  | SetAttr n v h => SetAttr (chain_end ALIASES n) v h
+  | SetItem k v => SetItem (canon_key ALIASES k) v
+  | ReplaceValues kvs => ReplaceValues (map (fun kv => (chain_end ALIASES (fst kv), snd kv)) kvs)
+  | AddVariable _ _ _ | AddAttribute _ _ => o
+  end.
+
+Definition canon_kwargs (ALIASES : amap_t) (kw : list (string * operand)) : list (string * operand) :=
+  fold_left (fun acc kv => assoc_set (chain_end ALIASES (fst kv)) (snd kv) acc) kw [].
+
+Definition acyclic (ALIASES : amap_t) : Prop :=
+  forall k, In k (akeys (drop_self ALIASES)) -> exists n, ~ In (follow n (drop_self ALIASES) k) (akeys (drop_self ALIASES)).
+
+Section Canonical.
+  Variable pycast : dtype -> pyval -> outcome pyval.
+  Variable arrcast : dtype -> dtype -> pyval -> outcome pyval.
+  Variable infer : list pyval -> dtype.
+  Variable astype_dt : dtype -> list pyval -> dreq -> dtype.
+  Variable itemseq_exn : dtype -> exn.
+  Notation run := (run pycast arrcast infer astype_dt itemseq_exn).
+  Notation run_trace := (run_trace pycast arrcast infer astype_dt itemseq_exn).
+  Notation init_model := (init_model pycast arrcast infer astype_dt).
+  Notation alias_run := (gen_alias_run pycast arrcast infer astype_dt itemseq_exn).
+  Notation alias_trace := (alias_trace pycast arrcast infer astype_dt itemseq_exn).
+  Notation alias_init_model := (gen_alias_init_model pycast arrcast infer astype_dt).
+
+  Variable ALIASES : amap_t.
+  Variable PREFERRED : list string.
+  Variable am : aobj.
+  Hypothesis ND : NoDup (akeys ALIASES).
+  Hypothesis AC : acyclic ALIASES.
+  Hypothesis CON : alias_construct ALIASES PREFERRED = Ret am.
+
+  Lemma resolve_chain_end x : resolve am x = chain_end ALIASES x.
+  Proof.
+    apply (resolve_is_chain_end ALIASES PREFERRED am x ND); [|exact CON].
+    intros k K C. destruct (AC k K) as [n Hn]. apply Hn. apply follow_escape_bound. exact C.
+  Qed.
+
+  Lemma resolve_op_canon o : resolve_op am o = canon_op ALIASES o.
+  Proof.
+    destruct o as [name v dt|name v hint|k v|kvs|name v]; simpl; try reflexivity.
+    - rewrite resolve_chain_end. reflexivity.
+    - destruct k; simpl; try reflexivity; rewrite resolve_chain_end; reflexivity.
+    - f_equal. apply map_ext. intros [k v]. simpl. rewrite resolve_chain_end. reflexivity.
+  Qed.
+
+  (* REFINEMENT TO THE CANONICAL TWIN.  For every acyclic declaration the constructor accepts and every history, the aliased
+     object operated through ANY names goes through exactly the states and outcomes of an alias-free object operated through the
+     ends of the declared chains *)
+  Theorem alias_run_canonical_twin ops s : alias_run am ops s = run (map (canon_op ALIASES) ops) s.
+  Proof.
+    rewrite alias_run_twin. f_equal. apply map_ext. intros o. apply resolve_op_canon.
+  Qed.
+
+  Theorem alias_trace_canonical_twin ops s : alias_trace am ops s = run_trace (map (canon_op ALIASES) ops) s.
+  Proof.
+    rewrite alias_trace_twin. f_equal. apply map_ext. intros o. apply resolve_op_canon.
+  Qed.
+
+  Lemma fold_ext_kwargs (kw : list (string * operand)) : forall acc : list (string * operand),
+    fold_left (fun acc kv => assoc_set (resolve am (fst kv)) (snd kv) acc) kw acc =
+    fold_left (fun acc kv => assoc_set (chain_end ALIASES (fst kv)) (snd kv) acc) kw acc.
+  Proof.
+    induction kw as [|[k v] kw IH]; intros acc; simpl; [reflexivity|]. rewrite resolve_chain_end. apply IH.
+  Qed.
+
+  (* ... and is constructed like it: keywords through aliases = the same keywords through the chain ends *)
+  Theorem alias_init_canonical_twin k sp st d default NAMES kwargs :
+    alias_init_model am k sp st d default NAMES kwargs = init_model k sp st d default NAMES (canon_kwargs ALIASES kwargs).
+  Proof.
+    unfold gen_alias_init_model, resolve_kwargs, canon_kwargs. rewrite fold_ext_kwargs. reflexivity.
+  Qed.
+
+  (* reads through any name = reads of the chain end on the twin *)
+  Theorem alias_read_canonical_twin k s : alias_getitem am k s = getitem (canon_key ALIASES k) s.
+  Proof.
+    unfold alias_getitem. f_equal. destruct k; simpl; try reflexivity; rewrite resolve_chain_end; reflexivity.
+  Qed.
+
+  Theorem alias_getattr_canonical_twin n s : alias_getattr_var am n s = getattr_var (chain_end ALIASES n) s.
+  Proof. unfold alias_getattr_var. rewrite resolve_chain_end. reflexivity. Qed.
+End Canonical.
